@@ -149,6 +149,21 @@ Definition usual_exts (k : cls) : list (list Z) :=
 Definition named_as (k : cls) (fname : list Z) : Prop :=
   exists ext, In ext (usual_exts k) /\ ends_with ext (lower fname) = true.
 
+(* the types whose theorem uses the property's marker assumption (the others are proved without it) *)
+Definition assumes_no_foreign_marker (k : cls) : bool :=
+  match k with
+  | C_MP3 | C_AAC | C_OggSpeex | C_OggVorbis | C_OggFLAC | C_OggOpus | C_DSDIFF | C_ASF | C_MP4 | C_AC3 | C_SMF => true
+  | _ => false
+  end.
+(* nameless streams: every type except those that win on the magic alone against any marker *)
+Definition assumes_no_foreign_marker0 (k : cls) : bool :=
+  match k with
+  | C_OggTheora | C_WavPack | C_WAVE => false
+  | _ => true
+  end.
+Definition marker_assumption (needed : bool) (k : cls) (header : list Z) : Prop :=
+  needed = true -> no_foreign_marker k header = true.
+
 (* what C18 claims for a type k on one input: File(f) and File(f, easy=True) pick k resp. its Easy counterpart *)
 Definition picks (k : cls) (fname header : list Z) (trailer : option (list Z)) : Prop :=
   detect fname header trailer = Some (cls_name k) /\ detect_easy fname header trailer = Some (easy_name k).
